@@ -24,7 +24,7 @@ from elementpath.xpath_nodes import XPathNode, ElementNode, DocumentNode
 
 from elementpath.exceptions import ElementPathTypeError
 from elementpath.helpers import node_position
-from elementpath.xpath_context import XPathSchemaContext
+from elementpath.xpath_context import XPathContext, XPathSchemaContext
 from elementpath.xpath_tokens import XPathToken, NameToken, VariableToken, \
     ContextItemToken, AsteriskToken, ParentShortcutToken
 
@@ -445,6 +445,33 @@ def select__predicate(self: XPathToken, context: ta.ContextType = None) -> Itera
                 yield context.item
         elif self.boolean_value(predicate):
             yield context.item
+
+
+@method('[')
+def select_with_focus__predicate(self: XPathToken, context: XPathContext) \
+        -> Iterator[ta.ItemType]:
+    """
+    A further predicate on the step of a reverse axis numbers the items that
+    passed the previous predicates along the axis, i.e. in reverse document order.
+    """
+    step: XPathToken = self
+    while step.symbol == '[':
+        step = step[0]
+
+    if not getattr(step, 'reverse_axis', False):
+        yield from XPathToken.select_with_focus(self, context)
+        return
+
+    status = context.item, context.size, context.position, context.axis
+    results = [x for x in self.select(context)]
+    context.axis = None
+    context.size = context.position = len(results)
+    try:
+        for context.item in results:
+            yield context.item
+            context.position -= 1
+    finally:
+        context.item, context.size, context.position, context.axis = status
 
 
 ###
